@@ -26,6 +26,8 @@ type c07Markers struct {
 	spec    string // name of the type-specific marker
 }
 
+var c07ActivityTerms = []string{"actor", "target", "result", "origin", "instrument"}
+
 // c07Doc builds the JSON document for a name: id, type, summary and one type-specific marker, written by encoding/json.
 func c07Doc(name string, ti vocab.TypeInfo, known bool) map[string]interface{} {
 	d := map[string]interface{}{"id": "https://example.com/things/" + strings.ToLower(name), "summary": "marker summary"}
@@ -58,6 +60,13 @@ func c07Doc(name string, ti vocab.TypeInfo, known bool) map[string]interface{} {
 		d["object"] = "https://example.com/object"
 	case "IntransitiveActivity":
 		d["actor"] = "https://example.com/actor"
+	}
+	// every activity carries all of its own properties, each with its own value: which is which must survive the shared struct prefix
+	switch ti.GoType {
+	case "Activity", "IntransitiveActivity", "Question":
+		for _, term := range c07ActivityTerms {
+			d[term] = "https://example.com/" + term
+		}
 	}
 	return d
 }
@@ -95,6 +104,12 @@ func c07Value(name string, ti vocab.TypeInfo) ap.Item {
 		setItem("Object", ap.IRI("https://example.com/object"))
 	case "IntransitiveActivity":
 		setItem("Actor", ap.IRI("https://example.com/actor"))
+	}
+	switch ti.GoType {
+	case "Activity", "IntransitiveActivity", "Question":
+		for _, term := range c07ActivityTerms {
+			setItem(strings.ToUpper(term[:1])+term[1:], ap.IRI("https://example.com/"+term))
+		}
 	}
 	return p.Interface().(ap.Item)
 }
@@ -167,6 +182,14 @@ func c07CheckMarkers(it ap.Item, name string, ti vocab.TypeInfo) string {
 	case "IntransitiveActivity":
 		if link("Actor") != "https://example.com/actor" {
 			bad = "actor = " + link("Actor")
+		}
+	}
+	switch ti.GoType {
+	case "Activity", "IntransitiveActivity", "Question":
+		for _, term := range c07ActivityTerms {
+			if f := strings.ToUpper(term[:1]) + term[1:]; bad == "" && link(f) != "https://example.com/"+term {
+				bad = term + " = " + link(f)
+			}
 		}
 	}
 	return bad
